@@ -183,6 +183,10 @@ func (w *World) BuildContent(author int, fc FContent) (*aclrecordproto.AclConten
 		inv := &aclrecordproto.AclAccountInvite{InviteKey: pb, Permissions: pv(fc.Perm)}
 		if fc.Variant%2 == 1 {
 			inv.InviteType = aclrecordproto.AclInviteType_AnyoneCanJoin
+		}
+		// every combination of type and key material: an open invite normally carries the read
+		// key and a request invite does not, but a hand-made record can do either
+		if v := fc.Variant % 4; v == 1 || v == 2 {
 			inv.EncryptedReadKey = encKeyFor(pub)
 		}
 		w.pendingInvite = &InviteInfo{Key: priv, Anyone: fc.Variant%2 == 1, Perm: fc.Perm, Live: true}
